@@ -32,6 +32,7 @@ type Obligation struct {
 	TimeS  float64
 	Model  string
 	File   string
+	Replay *ReplayInfo // how to turn a model of the negated obligation into a call of the real function (nil: not replayable)
 }
 
 type unsupported struct{ msg string }
@@ -55,6 +56,7 @@ type Exec struct {
 	pkgByPath   map[string]*ssa.Package
 	fnByKey     map[string]*ssa.Function
 	loopFreshFn func(v ssa.Value, depth int) bool
+	pendingReplay *ReplayInfo
 	allocRankN  int
 	ginit       map[*ssa.Global]*Term
 	pure        *pureCtx
@@ -570,8 +572,12 @@ func (x *Exec) oblige(st *State, kind, label string, props []string, goal *Term,
 	}
 	as := append([]*Term{}, st.pc...)
 	as = append(as, extra...)
-	vc.obls = append(vc.obls, &Obligation{Name: name, Func: shortFuncName(vc.fn), Kind: kind, Label: label, Props: props, Src: src,
-		Assumptions: as, Goal: goal, Path: vc.paths})
+	ob := &Obligation{Name: name, Func: shortFuncName(vc.fn), Kind: kind, Label: label, Props: props, Src: src,
+		Assumptions: as, Goal: goal, Path: vc.paths}
+	if x.pendingReplay != nil && (kind == "ensures" || strings.HasPrefix(kind, "panics") || kind == "safe.nopanic") {
+		ob.Replay = x.pendingReplay
+	}
+	vc.obls = append(vc.obls, ob)
 }
 
 // ---------------------------------------------------------------------------
